@@ -45,13 +45,13 @@ def run(rep, tier, seed):
         check_primitives(rep, g, tier, seed)
         if g in DERIVED_QUICK or (tier != "quick" and g in DERIVED_THOROUGH):
             check_derived(rep, g, tier, seed)
-    rep.not_run.append("chain-rule Jacobians of rplus/lplus/rminus/lminus/between by direct differentiation for SE3, SE_2_3, SGal3 "
+    rep.not_run.append("chain-rule Jacobians of rplus/lplus/rminus/lminus/between by direct differentiation for SE_2_3, SGal3 (SE3: thorough tier) "
                        "(two symbolic elements through log: too slow); the generic layer is the same code for every group (C04 rule) and is "
-                       "differentiated here for SO2, SE2, Rn (quick) and SO3 (thorough); rplus/rminus additionally through dual numbers (C12)")
+                       "differentiated here for SO2, SE2, SO3, Rn (quick) and SE3 (thorough); rplus/rminus additionally through dual numbers (C12)")
 
 
-DERIVED_QUICK = ["SO2", "SE2", "R3"]
-DERIVED_THOROUGH = ["SO3"]
+DERIVED_QUICK = ["SO2", "SE2", "SO3", "R3"]
+DERIVED_THOROUGH = ["SE3"]
 
 
 def check_derived(rep, g, tier, seed):
